@@ -12,7 +12,7 @@ CFG = dict(
                "non-removed logs then has exactly one entry; the client gives up (logger.Fatal) only on the third failure in a row, never with <= 2 faults; "
                "historical sync then stream from lastProcessedBlock + 1 is gap-free and duplicate-free and the event handler's monotonicity check accepts it. "
                "The cursor handling before fix e592c25d6 is kept as a second model and proved to violate the same statement on a 3-event script. "
-               "Tied to /repo on every run by regenerated constants, call-site facts, literal/operator lists and source fingerprints of the modelled "
+               "Tied to /repo on every run by regenerated constants, call-site facts, statement-occurrence facts and literal/operator lists of the modelled "
                "functions, and by running the real ExecutionClient/EventSyncer over a real websocket against an in-process fake execution node with "
                "fault injection and diffing every observation with the model.",
     level_note="Trusted: Lean kernel (axioms propext/Classical.choice/Quot.sound only), the fact extractor, the harness (fake node, synchronisation, "
@@ -28,15 +28,15 @@ CFG = dict(
     rule="one case = fresh fake node + real ExecutionClient (batch 1..8, follow 0..8, start 0..1000, log density 0..100%, removed share 0..100%, "
          "blocks with > 12 logs sharing sort keys), optionally a historical sync first (head below/at/above follow distance, eth_blockNumber "
          "failure, k-th batch failing), then 3..15 script events drawn from the state reached (heads stale / below follow / advancing by 0..3 "
-         "batches+1, live-subscription error, idle connection drop, k-th eth_getLogs failing by RPC error or by dropped connection, eth_subscribe "
+         "batches+1, live-subscription error, idle connection drop, k-th eth_getLogs failing by RPC error (generic text or a node's response-too-large text) or by dropped connection, eth_subscribe "
          "failure), usually closed by an undisturbed head; every event line is executed on the real client and on the model and the FilterLogs "
          "call list / re-subscribe count / give-up flag per event and the full delivered sequence (block, log ids) per case are compared; a case "
          "class is distinct per (event kind, outcome, #batches, armed/after-fault flags, re-subscribe count, markers/removed/aborted/historical flags)",
     trusted_base=["go-ethereum ethclient/rpc client and server (real code, exercised over a real websocket; not modelled)",
                   "fake execution node: scripted immutable chain below head - followDistance, eth_getLogs answers in block order",
-                  "harness mirrors cli/operator/node.go's hand-over `SyncOngoing(lastProcessedBlock + 1)` (pinned by the source fingerprint of setupEventHandling) "
+                  "harness mirrors cli/operator/node.go's hand-over `SyncOngoing(lastProcessedBlock + 1)` (pinned by a statement-occurrence fact on setupEventHandling) "
                   "and mocks eth/eventhandler by its block-number monotonicity check",
-                  "source fingerprints of StreamLogs, streamLogsToChan, fetchLogsInBatches, FetchHistoricalLogs, PackLogs, SyncHistory, SyncOngoing, setupEventHandling"],
+                  "statement-occurrence (`has`) and operator-list (`lits`) facts pin the statements the model relies on; statements added without operators are left to the differential run"],
     assumptions=["no reorg at or below head - followDistance (the node's answer for a block never changes)",
                  "the node lists each block's logs in transaction order (eth_getLogs order); PackLogs' sort is then the identity",
                  "logBatchSize >= 1 (0 makes the Go loop spin forever; default 5000)",
